@@ -91,7 +91,7 @@ class Gen:
         return V.gen_text(rng, False)[:30]
 
 
-def gen(seed: int, tier: str):
+def gen(seed: int, tier: str, idx=None):
     rng0 = substream(seed, "swarm")
     cfg = {"property": PROPERTY, "aspects": ["grid", "names"], "profile": "grid"}
     kinds = ["s", "b", "i", "f", "dt", "td"]
